@@ -186,7 +186,13 @@ def install(env, mods, pid=0, table=None, prf_stub=True, rand_stub=True, keytag=
     if prf_stub and thresha:
         def prf_call(self, s, n=None):
             if isinstance(n, tuple):
-                raise symx.Unmodelled('PRF with shape')
+                # shape-n array: the real PRF fills the array from the same flat sequence as the list version (C-order reshape)
+                import math
+                flat = prf_call(self, s, math.prod(n))
+                arr = thresha.np.empty(len(flat), dtype=object)
+                for i_, v_ in enumerate(flat):
+                    arr[i_] = v_
+                return arr.reshape(n)
             n_ = 1 if n is None else n
             out = [env.fresh(f'prf_{self.key.hex()[:8]}_{bytes(s).hex()}_{self.max}_{i}', 0, self.max) if self.max > 1 else 0
                    for i in range(n_)]
